@@ -5,23 +5,31 @@
    supported type on either side, scalar %= big, checked_*, Sum/Product), the Rust result (or panic)
    equals the ref-ref BigUint/BigInt operation on the losslessly converted operands.
 
-   PROVED HERE (for all operand values, any answer of the capacity/len tests):
+   PROVED HERE (for all operand values, any answer of the capacity/len tests), at the DIGIT-LEVEL
+   models of the owning areas run on the canonical encodings of the operands
+   ([big_ops_digit v], inst/InstFormsOps.v; [v] picks the by-value / assign body where the crate has
+   two hand-written bodies for one operator):
    * C10_all_forms_checked — every row of the table regenerated from the source on each run
      (tools/extractors/forms.py expands all forwarding/promotion macros) satisfies the decidable
      soundness condition check_form; the table has 1286 rows.
-   * C10_forms_agree_partial — for every binary/assign row, the interpreter of its forwarding chain
-     down to the hand-written leaf, with the leaf restated in FormsLeaves.v, yields the Z-level
-     ref-ref semantics zsem (value AND panic cases: BigUint underflow, zero divisor, negative shift).
-   * C10_checked_agree_partial, C10_folds_agree_partial — the same for checked_* and Sum/Product.
-   PARTIAL because (i) the value-level behaviour of the BigUint big-big / scalar / shift / pow leaves
-   and of the BigInt big-big leaves is a hypothesis (big_ops_ok: H_ubigbig, H_ibigbig,
-   H_uadd_scalar, H_usub_scalar, H_umul_scalar, H_udivrem_scalar, H_scalar_usub, H_scalar_udivrem,
-   H_ushift, H_upow_scalar, H_upow_big) to be discharged with the C01/C02/C03/C07/C12 theorems, and
-   (ii) the tie between a row and the Rust impl it describes is the extractor plus the
-   correspondence run (the harness calls each of the 1286 impls by its qualified trait path and
-   compares in-process with the ref-ref result). *)
+   * C10_big_ops_discharged — the digit-level operations of C01 (add/sub), C02 (mul), C03 (div/rem),
+     C07 (& | ^, shifts), C12 (pow, at bmul := Mul.umul) have the Z-level ref-ref value [zsem]:
+     this is [big_ops_ok], formerly the hypothesis of the `_partial` theorems.
+   * C10_forms_agree — for every binary/assign row, the interpreter of its forwarding chain down to
+     the hand-written leaf, with the thin leaves restated in FormsLeaves.v over those digit-level
+     operations, yields the Z-level ref-ref semantics zsem (value AND panic cases: BigUint
+     underflow, zero divisor, negative shift, pow memory overflow).  For the two shift operators the
+     statement carries the physical range of C07 ([shift_phys]: `<<` whose result would have >= 2^60
+     digits is a capacity-overflow panic — C10_shl_overflow_all_forms shows EVERY form panics then;
+     `>>` is stated, like C07_ushr, for vectors of fewer than 2^58 digits).
+   * C10_forms_agree_ref — without any range condition, for ALL values: every form equals the
+     reference ([sem_ref]: zsem, and for `<<`/`>>` the reference leaf itself).
+   * C10_checked_agree, C10_folds_agree — the same for checked_* and Sum/Product (closed).
+   What remains outside Coq: the tie between a row and the Rust impl it describes is the extractor
+   plus the correspondence run (the harness calls each of the 1286 impls by its qualified trait path
+   and compares in-process with the ref-ref result). *)
 From Coq Require Import ZArith List Bool.
-From BigNum Require Import Base X86 AddSub Forms FormsLeaves FormsProofs FormsLeavesProofs FormsAddSubLeaves Extracted InstAddSub InstForms.
+From BigNum Require Import Base X86 AddSub Forms FormsLeaves FormsProofs FormsLeavesProofs FormsAddSubLeaves Extracted InstAddSub InstForms InstFormsOps.
 Import ListNotations.
 Open Scope Z_scope.
 
@@ -30,33 +38,68 @@ Theorem C10_all_forms_checked :
 Proof. split; [exact C10_all_forms | apply C10_forms_count]. Qed.
 Print Assumptions C10_all_forms_checked.
 
-Theorem C10_forms_agree_partial :
-  forall (p : big_ops) (orc : form -> Z -> Z -> bool), big_ops_ok p ->
+(* the hypotheses of the former `_partial` theorems, discharged for the digit-level operations *)
+Theorem C10_big_ops_discharged : forall v : bool, big_ops_ok (big_ops_digit v).
+Proof. exact big_ops_digit_ok. Qed.
+Print Assumptions C10_big_ops_discharged.
+
+Theorem C10_forms_agree :
+  forall (v : bool) (orc : form -> Z -> Z -> bool),
+  forall f, In f forms -> is_arith_role (f_role f) = true ->
+  forall x y, in_oty (k_ty (f_lhs f)) x -> in_oty (k_ty (f_rhs f)) y -> shift_phys (f_op f) x y ->
+  eval_form (leaf_of (big_ops_digit v)) forms orc f x y = zsem (fam f) (f_op f) x y.
+Proof. intros v orc. exact (forms_agree (big_ops_digit v) orc (big_ops_digit_ok v)). Qed.
+Print Assumptions C10_forms_agree.
+
+(* all values, no range condition: every form equals the reference (for `<<` / `>>` the reference
+   leaf `biguint_shl/shr` resp. its BigInt sign wrapper, capacity-overflow panic included) *)
+Theorem C10_forms_agree_ref :
+  forall (v : bool) (orc : form -> Z -> Z -> bool),
   forall f, In f forms -> is_arith_role (f_role f) = true ->
   forall x y, in_oty (k_ty (f_lhs f)) x -> in_oty (k_ty (f_rhs f)) y ->
-  eval_form (leaf_of p) forms orc f x y = zsem (fam f) (f_op f) x y.
-Proof. exact forms_agree. Qed.
-Print Assumptions C10_forms_agree_partial.
+  eval_form (leaf_of (big_ops_digit v)) forms orc f x y = sem_ref (big_ops_digit v) (fam f) (f_op f) x y.
+Proof. intros v orc. exact (forms_agree_ref (big_ops_digit v) orc (big_ops_digit_ok v)). Qed.
+Print Assumptions C10_forms_agree_ref.
 
-Theorem C10_checked_agree_partial :
-  forall (p : big_ops) (orc : form -> Z -> Z -> bool), big_ops_ok p ->
+(* outside the physical range of `<<` every form panics with the capacity overflow *)
+Theorem C10_shl_overflow_all_forms :
+  forall (v : bool) (orc : form -> Z -> Z -> bool),
+  forall f, In f forms -> is_arith_role (f_role f) = true -> f_op f = OpShl ->
+  forall x k, in_oty (k_ty (f_lhs f)) x -> in_oty (k_ty (f_rhs f)) k -> 0 <= k -> shl_overflow x k = true ->
+  eval_form (leaf_of (big_ops_digit v)) forms orc f x k = Panic MemOverflow.
+Proof. intros v orc. exact (shl_overflow_all_forms v orc). Qed.
+Print Assumptions C10_shl_overflow_all_forms.
+
+Theorem C10_checked_agree :
+  forall (v : bool) (orc : form -> Z -> Z -> bool),
   forall f, In f forms -> f_role f = RChecked ->
   forall x y, in_oty (OBig (fam f)) x -> in_oty (OBig (fam f)) y ->
-  eval_checked (leaf_of p) forms orc (leafc_of p) f x y = checked_of (zsem (fam f) (f_op f) x y).
-Proof. exact checked_agree. Qed.
-Print Assumptions C10_checked_agree_partial.
+  eval_checked (leaf_of (big_ops_digit v)) forms orc (leafc_of (big_ops_digit v)) f x y =
+  checked_of (zsem (fam f) (f_op f) x y).
+Proof. intros v orc. exact (checked_agree (big_ops_digit v) orc (big_ops_digit_ok v)). Qed.
+Print Assumptions C10_checked_agree.
 
-Theorem C10_folds_agree_partial :
-  forall (p : big_ops) (orc : form -> Z -> Z -> bool), big_ops_ok p ->
+Theorem C10_folds_agree :
+  forall (v : bool) (orc : form -> Z -> Z -> bool),
   forall f, In f forms -> f_role f = RFold ->
   exists b init, k_ty (f_lhs f) = OBig b /\ f_shape f = SFold init (f_op f) /\
     ((f_op f = OpAdd /\ init = 0) \/ (f_op f = OpMul /\ init = 1)) /\
     forall kt g l, lookup forms RBinop (f_op f) (kb b false) kt = Some g ->
       (b = FamU -> forall v, in_oty (k_ty kt) v -> 0 <= v) -> Forall (in_oty (k_ty kt)) l ->
-      eval_fold (leaf_of p) forms orc f kt l =
+      eval_fold (leaf_of (big_ops_digit v)) forms orc f kt l =
       Ret (fold_left (match f_op f with OpAdd => Z.add | _ => Z.mul end) l init).
-Proof. exact folds_agree. Qed.
-Print Assumptions C10_folds_agree_partial.
+Proof. intros v orc. exact (folds_agree (big_ops_digit v) orc (big_ops_digit_ok v)). Qed.
+Print Assumptions C10_folds_agree.
+
+(* the same three statements hold for ANY operations satisfying [big_ops_ok] — in particular for
+   the Z-level instance [big_ops_z] the extracted driver runs (FormsLeaves.leaf_z) *)
+Theorem C10_forms_agree_any_ops :
+  forall (p : big_ops) (orc : form -> Z -> Z -> bool), big_ops_ok p ->
+  forall f, In f forms -> is_arith_role (f_role f) = true ->
+  forall x y, in_oty (k_ty (f_lhs f)) x -> in_oty (k_ty (f_rhs f)) y -> shift_phys (f_op f) x y ->
+  eval_form (leaf_of p) forms orc f x y = zsem (fam f) (f_op f) x y.
+Proof. exact forms_agree. Qed.
+Print Assumptions C10_forms_agree_any_ops.
 
 (* generic soundness of the decidable condition, for ANY table and ANY reference semantics whose
    `commutative` operators commute *)
@@ -99,12 +142,17 @@ Print Assumptions C10_leaf_biguint_addsub_scalar.
 (* non-vacuity: the hypotheses are satisfiable (big_ops_z_ok), and a concrete chain
    `&i8 - &BigInt` -> `i8 - BigInt` -> `i32 - BigInt` (leaf, checked_uabs dispatch) evaluates right *)
 Example C10_nonvacuous :
+  eval_form (leaf_of (big_ops_digit false)) forms (fun _ _ _ => true)
+    {| f_role := RBinop; f_op := OpSub; f_lhs := ks Ti8 true; f_rhs := kb FamI true;
+       f_shape := SFwd RBinop OpSub (ax ASelf MDeref None) (ax AOther MClone None) |}
+    (-128) (2 ^ 64 + 5) = Ret (- 2 ^ 64 - 133) /\
   big_ops_ok big_ops_z /\
   exists g, lookup forms RBinop OpSub (ks Ti8 true) (kb FamI true) = Some g /\ In g forms /\
             is_arith_role (f_role g) = true /\ in_otyb (k_ty (f_lhs g)) (-128) = true /\
             eval_form (leaf_of big_ops_z) forms (fun _ _ _ => true) g (-128) (2 ^ 64 + 5) = Ret (- 2 ^ 64 - 133) /\
             srem_assign Ti8 (-128) 128 = Ret 0.
 Proof.
+  split; [vm_compute; reflexivity|].
   split; [exact big_ops_z_ok|].
   eexists; split; [vm_compute; reflexivity|].
   split; [|vm_compute; repeat split; reflexivity].
